@@ -126,6 +126,43 @@ def run_one(ck, prog):
                 srcs = [z for z in walk_deep(rp, sc.prov) if z[0] == "call" and z[1] == MMAP]
                 ok = bool(srcs) and any(canon(strip_casts(sc.args(z[3])[1]).__getitem__(2)[0]) == canon(rs) if isinstance(strip_casts(sc.args(z[3])[1]), tuple) and strip_casts(sc.args(z[3])[1])[0] == "call" and strip_casts(sc.args(z[3])[1])[2] else False for z in srcs)
                 ck.ob("C18.2", f"setup-stores-mapped-size|{which}", ok, fn=su["path"], detail=f"ring_size stored for the {which} ring must be the length its mapping was made with (ring_size={show(rs)})")
+    # one mapping for both rings (IORING_FEAT_SINGLE_MMAP) is as long as the LONGER of the two: every redefinition of a ring size from
+    # the other ring's size raises it (`if cq > sq { sq = cq } else { cq = sq }`, or max(sq, cq)) - the shorter one would leave the tail
+    # of the index array or of the completion entries outside the mapping
+    names18 = {x["p"]["l"]: x["n"] for x in su.get("names", []) if isinstance(x.get("p", {}).get("l"), int) and not x["p"].get("p")}
+    szl = {n_: l for l, n_ in names18.items() if n_ in ("sq_ring_sz", "cq_ring_sz")}
+    if len(szl) == 2:
+        bad18 = []
+        n_re = 0
+        for b in su["blocks"]:
+            if b["id"] not in sc.cfg.live_blocks() or b.get("cleanup"):
+                continue
+            for i, st in enumerate(b["stmts"]):
+                if st["k"] != "assign" or st["dst"].get("p") or st["dst"]["l"] not in szl.values():
+                    continue
+                v = strip_casts(sc.prov.rvalue(st["rv"], (b["id"], i)))
+                other = [l for l in szl.values() if l != st["dst"]["l"]][0]
+                rv0 = st["rv"]
+                other_now = canon(strip_casts(sc.prov.operand({"k": "copy", "p": {"l": other}}, (b["id"], i))))
+                if rv0["k"] == "use" and rv0["a"].get("k") in ("copy", "move") and not rv0["a"]["p"].get("p") and canon(v) == other_now and \
+                        canon(v) != canon(strip_casts(sc.prov.operand({"k": "copy", "p": {"l": st["dst"]["l"]}}, (b["id"], i)))):
+                    n_re += 1
+                    # dst = other: must happen where other is the larger one
+                    big = canon(v)
+                    small = canon(strip_casts(sc.prov.operand({"k": "copy", "p": {"l": st["dst"]["l"]}}, (b["id"], i))))
+                    fs = panics.dominating_facts(sc, b["id"])
+                    up = any(f[0] == "cmp" and ((f[1] in ("Gt", "Ge") and canon(strip_casts(f[2])) == big and canon(strip_casts(f[3])) == small) or
+                                                (f[1] in ("Lt", "Le") and canon(strip_casts(f[2])) == small and canon(strip_casts(f[3])) == big)) for f in fs)
+                    is_max = isinstance(v, tuple) and v[0] == "call" and (v[1] or "").endswith(("::max", "cmp::max"))
+                    if not up and not is_max:
+                        bad18.append(b["id"])
+                elif isinstance(v, tuple) and v[0] == "call" and (v[1] or "").endswith(("::min", "cmp::min")):
+                    n_re += 1
+                    bad18.append(b["id"])
+                elif isinstance(v, tuple) and v[0] == "call" and (v[1] or "").endswith(("::max", "cmp::max")):
+                    n_re += 1
+        ck.ob("C18.2", "shared-mapping-is-the-longer-ring", n_re >= 1 and not bad18, fn=su["path"], site=sc.site(bad18[0]) if bad18 else None,
+              detail="with IORING_FEAT_SINGLE_MMAP both rings share one mapping: its length must be the larger of the two ring sizes")
     closes = [bb for bb, t in dc.cfg.calls(lambda t: t.get("callee") == CLOSE)]
     # exactly one close on every way out (one site, or one per exit branch), each after the unmaps that always happen
     every_exit = bool(closes) and not any(rb in dc.cfg.reachable_from(0, avoid=set(closes)) for rb in dc.cfg.return_blocks())
